@@ -183,8 +183,8 @@ def render (c : Ctx) (k : Connector) : Except Err Elem := do
   | .horizontal =>
     let mid ← (match k.startEl, k.endEl with
       | some se, some ee => do
-        let sb ← (match ← se.bbox with | some b => pure b | none => throw Err.missingBBox)
-        let eb ← (match ← ee.bbox with | some b => pure b | none => throw Err.missingBBox)
+        let sb ← needBB c se
+        let eb ← needBB c ee
         pure (overlapMid (sb.scalarspec .Miny) (sb.scalarspec .Maxy) (eb.scalarspec .Miny) (eb.scalarspec .Maxy))
       | _, _ => pure y1)
     pure (lineElem x1 mid x2 mid k.source)
